@@ -340,6 +340,30 @@ theorem applyTo_normal_form (H C : ℚ) (hH : H ≠ 0) (hC : C ≠ 0) : ∀ (l :
       simp only [List.map_cons, ToArg.name, applyTo, hg, hg', h1, lastW]
       rw [e2, hs'.2.2.1]
 
+/-- `Unit(name)` (regenerated dispatch `Gen.unitOfName`): the canonical name of every wavelength and flux unit — the names
+the conversion tables `waveTo`/`fluxTo` are indexed by — resolves to the class carrying exactly that name, so a spectrum built
+with unit `u` reports unit `u` and converts with `u`'s row of the table -/
+theorem unit_canonical_names_fixed :
+    (∀ u : WUnit, Gen.unitOfName u.name = some u.name) ∧ (∀ f : FUnit, Gen.unitOfName f.name = some f.name) := by
+  refine ⟨fun u => ?_, fun f => ?_⟩
+  · cases u <;> rfl
+  · cases f <;> rfl
+
+/-- the documented aliases (table in `Unit`'s docstring: ``m``/``meter``, ``um``/``micron``, ``nm``/``nanometer``) resolve to
+the same unit as the canonical name, and every accepted name resolves to a unit of one of the two tables (nothing else is
+accepted by `Unit`): wavelength and flux names do not collide -/
+theorem unit_aliases_resolve :
+    Gen.unitOfName "meter" = Gen.unitOfName "m" ∧ Gen.unitOfName "micron" = Gen.unitOfName "um" ∧
+    Gen.unitOfName "nanometer" = Gen.unitOfName "nm" ∧
+    (∀ n ∈ Gen.unitNames, ∃ c, Gen.unitOfName n = some c ∧ Gen.unitOfName c = some c ∧
+        ((WUnit.ofName? c).isSome ≠ (FUnit.ofName? c).isSome)) ∧
+    (∀ n, n ∉ Gen.unitNames → Gen.unitOfName n = none) := by
+  refine ⟨rfl, rfl, rfl, by decide, ?_⟩
+  intro n hn
+  simp only [Gen.unitNames, List.mem_cons, List.not_mem_nil, or_false, not_or] at hn
+  unfold Gen.unitOfName
+  split <;> simp_all
+
 /-- non-vacuity / instance: `to('um', 'flam', 'nm', 'wlam', 'angstrom')` = flux → wlam once, wavelengths → angstrom once -/
 example (H C : ℚ) (hH : H ≠ 0) (hC : C ≠ 0) (s : USpec) (f : FUnit) (hf : s.vu = some f) (hl : s.value.length = s.wave.length)
     (hw : ∀ w ∈ s.wave, w ≠ 0) : ∃ s₁, toFlux .wlam H C s = some s₁ ∧
